@@ -14,16 +14,20 @@ from .c18 import Model
 from .common import METAHANDLER
 
 LEVEL_TEXT = (
-    "Static rules: (R1) for every MetaHandlerGenerator subclass (found through the hierarchy) generate is abstractly "
-    "interpreted (each random draw a fresh exact symbol in its range, choice -> a member of the option container, "
-    "counted append loops and joins -> a sequence of symbolic length) and validate is abstractly evaluated on that "
-    "value: every conjunct must hold for all parameter values, including min == max and the boundaries; a conjunct "
-    "that is false at an attainable corner is reported with the corner; (R2) both creators route annotated fields "
-    "through the refinement (an annotated branch that generates / validates and is not shadowed by an earlier test); "
-    "(R3) the dict of sibling values handed to child creation is a fresh per-node dict that receives every field "
-    "after it is built, in create_node and in mutate, and the annotated branch forwards it to generate; (R4) mutate "
-    "regenerates a field whose refinement depends on an already mutated sibling. User-supplied Dependent callables "
-    "and the SMT refinement have no decidable validator and are listed as skipped."
+    "Static rules: (R1) for every MetaHandlerGenerator subclass (found through the hierarchy, inherited methods included) "
+    "generate is abstractly interpreted (each random draw a fresh exact symbol in its range, choice -> a member of the "
+    "option container, counted append loops, comprehensions and joins -> a sequence of symbolic length) and validate is "
+    "abstractly evaluated on that value: every conjunct (or, for guard-clause validators, the negation of every rejecting "
+    "guard) must hold for all parameter values, including min == max and the boundaries; a conjunct that is false at an "
+    "attainable corner is reported with the corner; (R2/R3/R4) finite-model interpretation of create_node and mutate "
+    "(sa/treemodel.py: the source is interpreted on symbolic types of each form with the repository's own type-form "
+    "predicates inlined over a model of the typing runtime, helper functions inlined, recursive creation calls recorded "
+    "with snapshots of their dict arguments): an annotated field gets exactly the value its refinement's generate returns, "
+    "generate receives the sibling values; the children of a production are created with a fresh dict holding exactly the "
+    "earlier fields of that node under their names with the values placed in the node; mutate regenerates the selected "
+    "field and every later field whose refinement depends on a regenerated sibling (9 scenarios x dependency shapes), "
+    "passing the rebuilt siblings; the stack mapper's refined branch must be reachable (syntactic; known finding). "
+    "User-supplied Dependent callables and the SMT refinement have no decidable validator and are listed as skipped."
 )
 
 SKIP = {
@@ -136,6 +140,27 @@ def conjuncts(e: ast.AST) -> list[ast.AST]:
     return [e]
 
 
+_FLIP = {ast.Lt: ast.GtE, ast.LtE: ast.Gt, ast.Gt: ast.LtE, ast.GtE: ast.Lt, ast.Eq: ast.NotEq, ast.NotEq: ast.Eq,
+         ast.In: ast.NotIn, ast.NotIn: ast.In, ast.Is: ast.IsNot, ast.IsNot: ast.Is}
+
+
+def negated_conjuncts(test: ast.AST, polarity: bool) -> list[ast.AST]:
+    """conjuncts of (test if not polarity else not test): what must hold for the branch *not* to be taken"""
+    want = not polarity   # we need `test == want`
+    if isinstance(test, ast.UnaryOp) and isinstance(test.op, ast.Not):
+        return negated_conjuncts(test.operand, not polarity)
+    if want:
+        return conjuncts(test)
+    if isinstance(test, ast.BoolOp) and isinstance(test.op, ast.Or):
+        out = []
+        for v in test.values:
+            out += negated_conjuncts(v, True)
+        return out
+    if isinstance(test, ast.Compare) and len(test.ops) == 1 and type(test.ops[0]) in _FLIP:
+        return [ast.copy_location(ast.Compare(left=test.left, ops=[_FLIP[type(test.ops[0])]()], comparators=test.comparators), test)]
+    return [ast.copy_location(ast.UnaryOp(op=ast.Not(), operand=test), test)]
+
+
 def decide_conjunct(env: Env, c: ast.AST) -> Verdict:
     if isinstance(c, ast.Compare) and len(c.ops) == 1 and not isinstance(c.ops[0], (ast.In, ast.NotIn)):
         a, b = evaluate(env, c.left), evaluate(env, c.comparators[0])
@@ -187,7 +212,7 @@ def rule_r1(ctx: Ctx) -> None:
         if cls.fullname in SKIP:
             ctx.accept("C02.R1", cls.fullname, SKIP[cls.fullname])
             continue
-        gen, val = cls.methods.get("generate"), cls.methods.get("validate")
+        gen, val = prog.lookup_method(cls, "generate"), prog.lookup_method(cls, "validate")   # inherited ones count
         if gen is None or val is None or is_stub(gen.node) or is_stub(val.node):
             ctx.ob("C02.R1", gen or val, (gen or val).node if (gen or val) else None, f"{cls.name}: generate and validate present",
                    None, "generate/validate missing", module=cls.module.relpath)
@@ -197,6 +222,8 @@ def rule_r1(ctx: Ctx) -> None:
         model = GenModel()
         env.hooks.append(model.call)
         env.sub_hooks.append(model.sub)
+        env.count_assumption = lambda n_, model=model: model.assumed.append(
+            f"loop count {n_!r} >= 0 (size parameters are non-negative: user contract)")
         # locals that start as empty list / empty string literals are sequences of length 0
         outs = interp(_prep(gen.node.body), env, for_hook=model.for_hook)
         vparam = val.params[1]
@@ -217,6 +244,27 @@ def rule_r1(ctx: Ctx) -> None:
                     continue
                 # re-evaluate conjunct by conjunct for a precise report
                 expr = vo.node.value
+                if isinstance(expr, ast.Constant) and expr.value is True:
+                    continue
+                if isinstance(expr, ast.Constant) and expr.value is False:
+                    # a rejecting guard clause: it must be unreachable for generated values, i.e. the negation of the
+                    # guard that leads here holds on every generated value (earlier guards are already assumed)
+                    if not vo.guards:
+                        ctx.ob("C02.R1", val, vo.node, f"{cls.name}: validate rejects unconditionally", False,
+                               "validate returns False for every generated value")
+                        continue
+                    gtest, gpol, genv = vo.guards[-1]
+                    for cj in negated_conjuncts(gtest, gpol):
+                        vd = decide_conjunct(genv, cj)
+                        desc = f"{cls.name}: validate conjunct '{norm(cj)}' holds on every generated value"
+                        if vd.status == HOLDS:
+                            ctx.ob("C02.R1", val, gtest, desc, True, "")
+                        elif vd.status == FAILS:
+                            ctx.ob("C02.R1", val, gtest, desc, False,
+                                   f"generate can produce a value that validate rejects: {vd.detail}", witness=vd.witness)
+                        else:
+                            ctx.ob("C02.R1", val, gtest, desc, None, vd.detail)
+                    continue
                 if isinstance(expr, ast.Name):
                     ds = [a for a in val.node.body if isinstance(a, ast.Assign) and isinstance(a.targets[0], ast.Name) and a.targets[0].id == expr.id]
                     expr = ds[-1].value if ds else expr
@@ -254,37 +302,56 @@ def _prep(body: list[ast.stmt]) -> list[ast.stmt]:
 
 
 def rule_r2(ctx: Ctx) -> None:
-    # ---- tree creator
+    """create_node is *interpreted* on Annotated[int, MH] and Annotated[list[A], MHL] (the repository's own type-form
+    predicates inlined on a model of the typing runtime): on every path the value returned is what the refinement's
+    generate returned, generate is called once on the refinement found in the type's metadata with the unwrapped base type,
+    and it receives the sibling values handed to create_node (R3)."""
+    from ..treemodel import ANN_INT, ANN_LIST, Budget, Sym, TreeModel, TypeV, UNKNOWN, create_node_runs
     cn = ctx.fn(CREATE_NODE)
-    chains = dispatch_chains(cn)
-    if not chains:
-        raise AnalysisError("C02.R2: create_node has no type-form dispatch chain")
-    var, br = max(chains, key=lambda x: len(x[1]))
-    idx = next((i for i, b in enumerate(br) if b.form == "annotated" and not b.negated), None)
-    ok = idx is not None
-    ctx.ob("C02.R2", cn, br[idx].test if ok else cn.node, "create_node has an annotated branch", ok,
-           "" if ok else "annotated field types are not dispatched to their refinement")
-    if ok:
-        body = br[idx].body
-        gens = [c for s_ in body for c in ast.walk(s_) if isinstance(c, ast.Call) and call_name(c) == "generate"]
-        rets = [r for s_ in body for r in ast.walk(s_) if isinstance(r, ast.Return) and parent(r) in [None] or isinstance(r, ast.Return)]
-        okg = len(gens) >= 1
-        ctx.ob("C02.R2", cn, br[idx].test, "the annotated branch obtains the value from metahandler.generate", okg,
-               "" if okg else "the annotated branch does not call the refinement's generate")
-        # not shadowed: no earlier branch can be satisfied by an annotated type
-        shadow = [b for b in br[:idx] if b.form in ("generic", "other") or b.form.startswith("member:")]
-        ctx.ob("C02.R2", cn, br[idx].test, "no earlier test in the chain can capture an annotated type", not shadow,
-               "" if not shadow else f"an earlier branch ('{norm(shadow[0].test)}') also matches annotated types: the refinement is bypassed")
-        if gens:
+    model = TreeModel(ctx)
+    for sym in (ANN_INT, ANN_LIST):
+        try:
+            runs = create_node_runs(ctx, model, sym, dependent_values={"sib": Sym("sibval")})
+        except Budget:
+            ctx.ob("C02.R2", cn, cn.node, f"create_node({sym.name}) obtains the value from the refinement's generate", None,
+                   "too many interpretations")
+            continue
+        ok_gen: Optional[bool] = True
+        ok_ret: Optional[bool] = True
+        ok_fwd: Optional[bool] = True
+        why_gen = why_ret = why_fwd = ""
+        live = 0
+        for trace, rv, notes in runs:
+            if any(e.kind == "raise" for e in trace):
+                continue
+            live += 1
+            gens = [e for e in trace if e.kind == "call" and e.name == "generate"]
+            if len(gens) != 1 or gens[0].recv != sym.meta:
+                ok_gen = False
+                why_gen = (f"for a field of type {sym.name} create_node calls the refinement's generate {len(gens)} time(s)"
+                           if len(gens) != 1 else f"generate is called on {gens[0].recv!r}, not on the type's refinement")
+                others = [e.name for e in trace if e.kind == "call"]
+                why_gen += f" (calls on this path: {others[:4]}): the refinement is bypassed"
+                continue
             g = gens[0]
-            # value returned is the generated one
-            st = enclosing_stmt(g)
-            vname = st.targets[0].id if isinstance(st, ast.Assign) and isinstance(st.targets[0], ast.Name) else None
-            rets = [r for s_ in body for r in ast.walk(s_) if isinstance(r, ast.Return) and not any(
-                isinstance(a, (ast.FunctionDef, ast.Lambda)) and a is not cn.node for a in ancestors(r))]
-            okr = bool(rets) and all(vname is not None and vname in {n.id for n in ast.walk(r.value) if isinstance(n, ast.Name)} for r in rets)
-            ctx.ob("C02.R2", cn, rets[0] if rets else g, "the annotated branch returns the generated value", okr,
-                   "" if okr else "the value returned for an annotated field is not the one the refinement generated")
+            if len(g.args) >= 3 and g.args[2] != sym.args[0] and ok_gen:
+                ok_gen, why_gen = False, f"generate receives base type {g.args[2]!r}, expected {sym.args[0]!r}"
+            if rv is UNKNOWN:
+                ok_ret = None if ok_ret else ok_ret
+                why_ret = why_ret or "returned value not followed"
+            elif not (isinstance(rv, Sym) and rv.tag == "generated"):
+                ok_ret, why_ret = False, f"the value returned for an annotated field is {rv!r}, not the one the refinement generated"
+            dv = g.args[4] if len(g.args) > 4 else g.kwargs.get("dependent_values", UNKNOWN)
+            if dv != {"sib": Sym("sibval")}:
+                ok_fwd, why_fwd = (False if isinstance(dv, dict) else None), \
+                    f"generate receives {dv!r} instead of the sibling values handed to create_node ({{'sib': ...}})"
+        if live == 0:
+            ok_gen, why_gen = False, f"create_node raises for a field of type {sym.name}"
+        ctx.ob("C02.R2", cn, cn.node, f"create_node({sym.name}): the refinement's generate is called once, with the unwrapped base type",
+               ok_gen, why_gen, witness={"type": sym.name})
+        if ok_gen:
+            ctx.ob("C02.R2", cn, cn.node, f"create_node({sym.name}): returns the generated value", ok_ret, why_ret)
+            ctx.ob("C02.R3", cn, cn.node, f"create_node({sym.name}): forwards the sibling values to generate", ok_fwd, why_fwd)
     # ---- stack creator
     stf = ctx.fn(STACK)
     loops = [l for l in walk_local(stf.node) if isinstance(l, ast.For) and isinstance(l.iter, ast.Call) and call_name(l.iter) == "get_arguments"]
@@ -344,110 +411,153 @@ def _keys_include_annotated(ctx: Ctx, stf: FunctionInfo, b) -> bool:
     return False
 
 
-def field_loops(fn: FunctionInfo):
-    """for-loops over get_arguments(...) (directly or zipped) inside fn"""
-    out = []
-    for l in walk_local(fn.node):
-        if isinstance(l, ast.For) and any(isinstance(c, ast.Call) and call_name(c) == "get_arguments" for c in ast.walk(l.iter)):
-            out.append(l)
-    return out
+def _dict_ok(d: Any, want: dict) -> Optional[bool]:
+    if not isinstance(d, dict):
+        return None
+    return d == want
 
 
 def rule_r3_r4(ctx: Ctx) -> None:
-    for fname, creator in ((CREATE_NODE, "create_node"), (MUTATE, "mutate")):
-        fn = ctx.fn(fname)
-        loops = field_loops(fn)
-        if len(loops) != 1:
-            ctx.ob("C02.R3", fn, fn.node, f"{fn.name}: field loop", None, f"{len(loops)} loops over get_arguments")
-            continue
-        l = loops[0]
-        calls = [c for s_ in l.body for c in ast.walk(s_) if isinstance(c, ast.Call) and isinstance(c.func, ast.Name) and c.func.id == creator]
-        if not calls:
-            ctx.ob("C02.R3", fn, l, f"{fn.name}: child creation in the field loop", None, "no recursive creation call")
-            continue
-        for c in calls:
-            g = ctx.res.resolve(fn, c)
-            params = g.targets[0].params if g.targets else []
-            dv = next((k.value for k in c.keywords if k.arg == "dependent_values"), None)
-            if dv is None and "dependent_values" in params and len(c.args) > params.index("dependent_values"):
-                dv = c.args[params.index("dependent_values")]
-            okn = isinstance(dv, ast.Name)
-            ctx.ob("C02.R3", fn, c, f"{fn.name}: children receive the dict of sibling values", okn,
-                   "" if okn else "child creation is not given the sibling-value dict: dependent refinements see no siblings")
-            if not okn:
-                continue
-            D = dv.id
-            # fresh per-node dict: last assignment before the loop in the enclosing block is a dict literal
-            blk = _block_containing(fn, l)
-            defs = [a for a in blk[: blk.index(l)] if isinstance(a, ast.Assign) and any(isinstance(t, ast.Name) and t.id == D for t in a.targets)]
-            fresh = bool(defs) and (isinstance(defs[-1].value, ast.Dict) and not defs[-1].value.keys
-                                    or isinstance(defs[-1].value, ast.Call) and call_name(defs[-1].value) == "dict" and not defs[-1].value.args)
-            ctx.ob("C02.R3", fn, defs[-1] if defs else l, f"{fn.name}: the sibling-value dict is a fresh dict of this node", fresh,
-                   "" if fresh else f"'{D}' is {'bound to ' + norm(defs[-1].value)[:50] if defs else 'not created in this node'}: "
-                                    f"sibling values leak between nodes (a nested node overwrites its parent's entries), so a "
-                                    f"dependent refinement is evaluated against another node's field")
-            # store after each field, on every path (top-level statement of the loop body)
-            stores = [s_ for s_ in l.body if isinstance(s_, ast.Assign) and isinstance(s_.targets[0], ast.Subscript)
-                      and isinstance(s_.targets[0].value, ast.Name) and s_.targets[0].value.id == D]
-            oks = len(stores) == 1
-            ctx.ob("C02.R3", fn, stores[0] if stores else l, f"{fn.name}: every built field is recorded for its later siblings", oks,
-                   "" if oks else "the field value is not stored into the sibling dict on every path")
-            if oks:
-                # key = field name variable of the loop, value = the value appended to the constructor args
-                st = stores[0]
-                key = st.targets[0].slice
-                tnames = {n.id for n in ast.walk(l.target) if isinstance(n, ast.Name)}
-                okk = isinstance(key, ast.Name) and key.id in tnames
-                apps = [c_ for s_ in l.body for c_ in ast.walk(s_) if isinstance(c_, ast.Call) and call_name(c_) == "append"]
-                same = any(isinstance(a.args[0], ast.Name) and isinstance(st.value, ast.Name) and a.args[0].id == st.value.id for a in apps if a.args)
-                ctx.ob("C02.R3", fn, st, f"{fn.name}: recorded under the field's name, the value actually used", okk and same,
-                       "" if okk and same else "the recorded sibling value is not the one placed in the node")
-    # annotated branch forwards the dict to generate
+    """create_node is interpreted on a production P(f1: A, f2: Annotated[int, MH]) and mutate on a node with three fields whose
+    refinements depend on the previous field.  Required: children are created with a dict that holds exactly the earlier
+    fields of *this* node (not the dict handed in, not the context's), under the field names, with the values actually
+    placed in the node; mutate regenerates the selected field and every later field whose refinement depends on a
+    regenerated sibling, passing the rebuilt sibling values."""
+    from ..treemodel import A, ANN_INT, Budget, MUTATE as MU, Obj, PROD, Sym, TreeModel, TypeV, UNKNOWN, create_node_runs
     cn = ctx.fn(CREATE_NODE)
-    gens = [c for c in walk_local(cn.node) if isinstance(c, ast.Call) and call_name(c) == "generate"]
-    for g in gens:
-        last = g.args[-1] if g.args else None
-        src_ok = False
-        if isinstance(last, ast.Name):
-            ds = [a for a in walk_local(cn.node) if isinstance(a, (ast.Assign, ast.AnnAssign))
-                  and isinstance(a.targets[0] if isinstance(a, ast.Assign) else a.target, ast.Name)
-                  and (a.targets[0] if isinstance(a, ast.Assign) else a.target).id == last.id]
-            src_ok = last.id == "dependent_values" or any("dependent_values" in {n.id for n in ast.walk(d.value) if isinstance(n, ast.Name)} for d in ds if d.value is not None)
-        ctx.ob("C02.R3", cn, g, "create_node forwards the sibling values to generate", src_ok,
-               "" if src_ok else "generate does not receive the sibling values handed to create_node")
+    model = TreeModel(ctx, fields={PROD: [("f1", A), ("f2", ANN_INT)]})
+    for label, init, want2 in (("fresh", None, {"f1": Sym("node:A")}), ("with an initial value", {"f1": Sym("given")}, {"f1": Sym("given")})):
+        try:
+            runs = create_node_runs(ctx, model, PROD, dependent_values={"sib": Sym("sibval")}, initial_values=init)
+        except Budget:
+            ctx.ob("C02.R3", cn, cn.node, f"create_node(P) [{label}]: sibling values", None, "too many interpretations")
+            continue
+        v_pass: Optional[bool] = True
+        v_fresh: Optional[bool] = True
+        v_rec: Optional[bool] = True
+        w_pass = w_fresh = w_rec = ""
+        live = 0
+        for trace, rv, notes in runs:
+            if any(e.kind == "raise" for e in trace):
+                continue
+            live += 1
+            calls = [e for e in trace if e.kind == "call" and e.name == "create_node"]
+            by_ty = {e.kwargs.get("starting_symbol"): e for e in calls}
+            c2 = by_ty.get(ANN_INT)
+            c1 = by_ty.get(A)
+            if c2 is None or (init is None and c1 is None):
+                v_pass, w_pass = None, "the fields of the production are not created through create_node"
+                continue
+            ac = [e for e in trace if e.kind == "call" and e.name == "apply_constructor"]
+            placed = ac[0].args[1] if len(ac) == 1 and isinstance(ac[0].args[1], list) and len(ac[0].args[1]) == 2 else None
+            if placed is None:
+                v_rec = None if v_rec else v_rec
+                w_rec = w_rec or "the constructor arguments are not followed"
+                continue
+            ok_first = placed[0] == Sym("node:A") if init is None else placed[0] in (Sym("given"), Sym("gengylist"))
+            if not ok_first or placed[1] != Sym("node:" + ANN_INT.name):
+                v_rec, w_rec = False, f"the constructor receives {placed!r}: not the values created for / given to the fields in order"
+                continue
+            for c_, want in ((c1, {}), (c2, {"f1": placed[0]})):
+                if c_ is None:
+                    continue
+                dv = c_.kwargs.get("dependent_values", None)
+                if not isinstance(dv, dict):
+                    v_pass = False if dv is None else None
+                    w_pass = ("child creation is not given the sibling-value dict: dependent refinements see no siblings"
+                              if dv is None else f"sibling dict not followed ({dv!r})")
+                    continue
+                if "sib" in dv or "ctxdep" in dv:
+                    v_fresh = False
+                    w_fresh = (f"the dict handed to the children of this node is {dv!r}: it is not a fresh dict of this node "
+                               f"(sibling values leak between nodes, a nested node overwrites its parent's entries)")
+                    continue
+                if dv != want:
+                    v_rec = False
+                    w_rec = (f"when field '{'f2' if c_ is c2 else 'f1'}' is created the sibling dict is {dv!r}, expected {want!r}: "
+                             f"the earlier fields are not recorded under their names with the values placed in the node")
+        if live == 0:
+            v_pass, w_pass = None, "create_node raises on a plain production in the model"
+        ctx.ob("C02.R3", cn, cn.node, f"create_node(P) [{label}]: children receive the dict of sibling values", v_pass, w_pass)
+        ctx.ob("C02.R3", cn, cn.node, f"create_node(P) [{label}]: the sibling-value dict is a fresh dict of this node", v_fresh, w_fresh)
+        ctx.ob("C02.R3", cn, cn.node, f"create_node(P) [{label}]: every built field is recorded under its name for its later siblings", v_rec, w_rec)
 
-    # ---- R4
+    # ---- mutate
     mu = ctx.fn(MUTATE)
-    loops = field_loops(mu)
-    if len(loops) == 1:
-        l = loops[0]
-        dep = [c for s_ in l.body for c in ast.walk(s_) if isinstance(c, ast.Call) and call_name(c) == "get_dependencies"]
-        flag_sets = [a for s_ in l.body for a in ast.walk(s_) if isinstance(a, ast.Assign) and isinstance(a.targets[0], ast.Name)
-                     and isinstance(a.value, ast.Constant) and a.value.value is True]
-        appends = [c for s_ in l.body for c in ast.walk(s_) if isinstance(c, ast.Call) and call_name(c) == "append"
-                   and isinstance(c.func.value, ast.Name)]
-        flag = flag_sets[0].targets[0].id if flag_sets else None
-        # a True-assignment guarded by a membership test between already-mutated names and the dependencies
-        guarded = False
-        for a in flag_sets:
-            from ..astutil import guards
-            for t, pol in guards(a, stop=l):
-                if isinstance(t, ast.Compare) and isinstance(t.ops[0], ast.In) and pol:
-                    guarded = True
-        mutated_list = None
-        for c in appends:
-            from ..astutil import guards
-            if any(isinstance(t, ast.Name) and t.id == flag and pol for t, pol in guards(c, stop=l)):
-                tn = {n.id for n in ast.walk(l.target) if isinstance(n, ast.Name)}
-                if c.args and isinstance(c.args[0], ast.Name) and c.args[0].id in tn:
-                    mutated_list = c.func.value.id
-        ok = bool(dep) and guarded and mutated_list is not None
-        ctx.ob("C02.R4", mu, dep[0] if dep else l, "mutate regenerates fields whose refinement depends on a mutated sibling", ok,
-               "" if ok else "a field depending on a mutated sibling keeps its old value: the dependent refinement can be violated "
-                             f"(dependencies consulted={bool(dep)}, flagged on membership={guarded}, mutated names recorded={mutated_list is not None})")
-        # regeneration passes the accumulated dict (checked by R3 on the recursive call)
-    else:
-        ctx.ob("C02.R4", mu, mu.node, "mutate field loop", None, f"{len(loops)} loops")
+    T1, T2, T3 = TypeV("class", "T1"), TypeV("annotated", "Annotated[int, M2]", (TypeV("builtin", "int"),), Sym("M2")), \
+        TypeV("annotated", "Annotated[int, M3]", (TypeV("builtin", "int"),), Sym("M3"))
+    NODE = TypeV("class", "N")
+    v_sel: Optional[bool] = True
+    v_dep: Optional[bool] = True
+    v_dict: Optional[bool] = True
+    w_sel = w_dep = w_dict = ""
+    nscen = 0
+    for deps, label in (({"M2": ["f1"], "M3": ["f2"]}, "chain f3<-f2<-f1"), ({"M3": ["f1"]}, "f3<-f1"), ({}, "no dependencies")):
+        for k in (1, 2, 3):
+            m2 = TreeModel(ctx, fields={NODE: [("f1", T1), ("f2", T2), ("f3", T3)]}, deps=deps,
+                           ints={"mutate:random_int": k},
+                           hasattrs={"node": {}, "__typeof__": {"node": NODE}})
+            it = m2.interp()
+            node = Sym("node")
+            p = mu.params
+            env = {p[0]: Obj("GlobalSynthesisContext", {"random": Sym("random"), "grammar": Sym("grammar"), "decider": Sym("decider")}),
+                   p[1]: node, p[2]: NODE, "node.gengy_init_values": [Sym("v1"), Sym("v2"), Sym("v3")],
+                   "node.gengy_synthesis_context": Obj("LocalSynthesisContext", {"depth": 1, "nodes": 1, "expansions": 1,
+                                                                              "dependent_values": {"ctxdep": Sym("x")}}),
+                   "node.gengy_weighted_nodes": 3}
+            if len(p) > 3:
+                env[p[3]] = {"sib": Sym("sibval")}
+            env[p[1]] = node
+            # attribute paths on the node parameter are read through its local name
+            env = {(k_.replace("node.", p[1] + ".", 1) if k_.startswith("node.") else k_): v for k_, v in env.items()}
+            try:
+                runs = it.run(mu, env)
+            except Budget:
+                v_sel, w_sel = None, "too many interpretations of mutate"
+                continue
+            # expected regeneration set
+            regen = {f"f{k}"}
+            for fname, mh in (("f2", "M2"), ("f3", "M3")):
+                if fname not in regen and any(d in regen for d in deps.get(mh, [])):
+                    regen.add(fname)
+            for trace, rv, notes in runs:
+                if any(e.kind == "raise" for e in trace):
+                    continue
+                built = [e for e in trace if e.kind == "call" and e.name in ("apply_constructor", "GengyList")]
+                if len(built) != 1 or not isinstance(built[0].args[1], list) or len(built[0].args[1]) != 3:
+                    v_sel = None if v_sel else v_sel
+                    w_sel = w_sel or "the rebuilt node's arguments are not followed"
+                    continue
+                nscen += 1
+                nargs = built[0].args[1]
+                got = {f"f{i + 1}" for i, a in enumerate(nargs) if not (isinstance(a, Sym) and a.tag == f"v{i + 1}")}
+                if f"f{k}" not in got:
+                    v_sel, w_sel = False, f"the field holding the selected node (f{k}) keeps its old value"
+                missing = regen - got
+                if missing - {f"f{k}"}:
+                    v_dep = False
+                    w_dep = (f"with dependencies [{label}] and f{k} regenerated, field(s) {sorted(missing)} keep their old value: "
+                             f"a field depending on a mutated sibling is not regenerated, the dependent refinement can be violated")
+                # the regenerated fields see the rebuilt earlier siblings
+                for e in [e for e in trace if e.kind == "call" and e.name == "mutate"]:
+                    dv = e.kwargs.get("dependent_values")
+                    arg = e.kwargs.get("i")
+                    idx = int(arg.tag[1:]) if isinstance(arg, Sym) and arg.tag[:1] == "v" and arg.tag[1:].isdigit() else None
+                    if idx is None:
+                        continue
+                    if not isinstance(dv, dict):
+                        v_dict = False if dv is None else None
+                        w_dict = ("the recursive mutate call is not given the sibling-value dict" if dv is None else f"sibling dict not followed ({dv!r})")
+                        continue
+                    want = {f"f{j + 1}": nargs[j] for j in range(idx - 1)}
+                    if "sib" in dv or "ctxdep" in dv:
+                        v_dict, w_dict = False, f"mutate hands its children {dv!r}: not a fresh dict of this node"
+                    elif dv != want:
+                        v_dict, w_dict = False, f"when f{idx} is regenerated the sibling dict is {dv!r}, expected {want!r}"
+    ctx.ob("C02.R4", mu, mu.node, "mutate regenerates the field that holds the selected node", v_sel, w_sel, witness={"scenarios": nscen})
+    ctx.ob("C02.R4", mu, mu.node, "mutate regenerates fields whose refinement depends on a mutated sibling", v_dep, w_dep)
+    ctx.ob("C02.R3", mu, mu.node, "mutate: regenerated fields receive the rebuilt values of their earlier siblings (fresh per-node dict)", v_dict, w_dict)
+    ctx.floor("C02.R4", nscen, 9, "interpreted mutate scenarios")
 
 
 def _block_containing(fn: FunctionInfo, node: ast.AST) -> list[ast.stmt]:
